@@ -82,6 +82,18 @@ theorem cross_origin_stays_cached (cfg : Cfg) (t0 : Int) (req : Req) (tr : List 
           x = makeURLKey req ∨ ∃ refs, Step.getRefs (makeURLKey req) refs ∈ tr1 ∧ ∃ ref ∈ refs.getD [], x = ref.id :=
   unsafe_exchange_deletes_only_target cfg t0 req tr r hu h
 
+/-- origins are compared by ASCII case only — the folding of the URL key: two hosts that only a Unicode case folding
+    equates (the Kelvin sign and "k", the long s and "s", a final and a medial sigma) are different origins, and the
+    reply of one cannot name the other's responses (fifth hunt: the code used strings.EqualFold) -/
+theorem same_origin_is_ascii_case (s1 h1 s2 h2 : Str) (h : sameOrigin s1 h1 s2 h2 = true) :
+    lowerASCII (stdSplitHostPort h1).1 = lowerASCII (stdSplitHostPort h2).1 ∧ lowerASCII s1 = lowerASCII s2 := by
+  unfold sameOrigin equalFoldASCII at h
+  simp only [Bool.and_eq_true, decide_eq_true_eq] at h
+  exact ⟨h.1.2, h.1.1⟩
+
+example : sameOrigin (str% "http") ("\u212aelvin.example").toList (str% "http") (str% "kelvin.example") = false := by decide
+example : sameOrigin (str% "http") (str% "KELVIN.example:80") (str% "http") (str% "kelvin.example") = true := by decide
+
 /-- the key under which a Location / Content-Location URI is invalidated is the RFC 3986 normal form of the
     reference resolved against the request URI by RFC 3986 §5.2.2 (`Spec.resolveRef`, `Spec.urlNormQ` — what the
     monitor computes on the trace): so it is the key under which a request for that URI, spelled the same way or
